@@ -558,10 +558,23 @@ def run_history(case, oracle, res, swap=False, nlv_path=None):
                     targets[j] = 0.0
             reb = lab.rebalancing(targets, op[2], op[3])
             broke_before = None
+            nlv_at_decision = led.nlv()
+            q_at_decision = [lab.code_q(j) for j in range(n)]
+            len_at_decision = len(br.track_record)
             try:
                 br.rebalance(reb)
             except EndOfEpisodeError:
                 broke_before = True
+            if isinstance(reb.profit_on_idle_cash, float) or hasattr(reb.profit_on_idle_cash, "__float__"):
+                nlv_at_decision += float(reb.profit_on_idle_cash)      # the valuation follows the accrual
+            if oracle == "c09" and nlv_at_decision < -1e-9 * led.scale():
+                if not broke_before:
+                    res.fail("a rebalance was executed on an account whose NLV is %.12g <= 0 (op %s)" % (nlv_at_decision, tag))
+                    return lab, stats
+                if [lab.code_q(j) for j in range(n)] != q_at_decision or len(br.track_record) != len_at_decision:
+                    res.fail("a rebalance refused for insolvency changed positions or the track record (op %s)" % tag)
+                    return lab, stats
+                res.tag("rebalance-refused-while-broke")
             if isinstance(reb.profit_on_idle_cash, float) or hasattr(reb.profit_on_idle_cash, "__float__"):
                 led.interest += float(reb.profit_on_idle_cash)
             if broke_before and reb.context_pre is not Ellipsis and isinstance(reb.trades, list):
@@ -595,8 +608,49 @@ def run_history(case, oracle, res, swap=False, nlv_path=None):
                         return lab, stats
         else:
             raise ValueError("unknown op %r" % (op,))
+        if oracle == "c09":
+            model = led.nlv()
+            band = 1e-9 * led.scale()
+            if abs(model) > band:
+                try:
+                    got = br.net_liquidation_value()
+                    raised = False
+                except EndOfEpisodeError:
+                    raised = True
+                if raised != (model < 0):
+                    res.fail("after op %s ledger NLV is %.12g but net_liquidation_value() %s" % (
+                        tag, model, "raised EndOfEpisodeError" if raised else "returned %.12g" % got))
+                    return lab, stats
+                quiet = br.net_liquidation_value(raise_if_broke=False)
+                if not abs(quiet - model) <= band:
+                    res.fail("after op %s net_liquidation_value(raise_if_broke=False) = %.12g, ledger %.12g" % (tag, quiet, model))
+                    return lab, stats
+                if model < 0:
+                    stats["insolvent"] = True
         open_margined = sum(1 for i in range(n) if lab.margined[i] and led.q[i] != 0)
         stats["margined_open_max"] = max(stats["margined_open_max"], open_margined)
         if oracle == "c01" and not check_c01(tag):
             return lab, stats
     return lab, stats
+
+
+@st.composite
+def ruin_histories(draw, tier="quick"):
+    """Leveraged or short accounts driven through adverse quotes (C09, broker level)."""
+    specs = draw(contract_specs(max_n=2))
+    n = len(specs)
+    ci = st.integers(0, n - 1)
+    op = st.one_of(
+        st.tuples(st.just("Q"), ci, st.floats(0.4, 1.9), st.sampled_from([0.0, 0.0, 0.01])),
+        st.tuples(st.just("Q"), ci, st.floats(0.4, 1.9), st.sampled_from([0.0, 0.02])),
+        st.tuples(st.just("T"), ci, st.just("open"), st.floats(1.5, 5.0).flatmap(lambda x: st.sampled_from([x, -x]))),
+        st.tuples(st.just("T"), ci, st.just("reduce"), st.floats(0.05, 0.95)),
+        st.tuples(st.just("V"), st.sampled_from(["nlv", "liq", "weights", "context"])),
+        st.tuples(st.just("M"), st.integers(-1, n - 1)),
+        rebalance_ops(n),
+    )
+    first = ("T", draw(ci), "open", draw(st.floats(1.5, 5.0)) * draw(st.sampled_from([-1.0, 1.0])))
+    ops = [first] + draw(st.lists(op, min_size=2, max_size=25))
+    return {"contracts": specs, "fees": list(draw(fee_schedules())), "deposit": draw(st.sampled_from([100.0, 1000.0, 5e4])),
+            "rate": draw(st.sampled_from([0.0, 0.0, 0.05])), "markup": draw(st.sampled_from([0.0, 0.01])), "dyadic": False,
+            "ops": [list(o) for o in ops]}
